@@ -15,13 +15,13 @@ enum OpKind {
   O_CREATE = 0, O_RELEASE, O_CALL, O_MOVE_MOCK, O_DESTROY_MOCK, O_RECREATE_MOCK,
   O_DESTROY_SEQ, O_MOVE_SEQ, O_RECREATE_SEQ,
   O_WATCH, O_UNWATCH, O_DESTROY_DW, O_COPY_DW, O_MOVE_DW, O_ASSIGN_DW, O_RECREATE_DW,
-  O_PUSH_TRACER, O_POP_TRACER, O_SWAP_REPORTER, O_DESTROY_HUSKS, O_SCOPED, NOPKIND
+  O_PUSH_TRACER, O_POP_TRACER, O_SWAP_REPORTER, O_DESTROY_HUSKS, O_SCOPED, O_SCOPED_DW, NOPKIND
 };
 inline const char* op_name(int k) {
   static const char* n[] = {"create", "release", "call", "move_mock", "destroy_mock", "recreate_mock",
                             "destroy_seq", "move_seq", "recreate_seq",
                             "watch", "unwatch", "destroy_dw", "copy_dw", "move_dw", "assign_dw", "recreate_dw",
-                            "push_tracer", "pop_tracer", "swap_reporter", "destroy_husks", "scoped"};
+                            "push_tracer", "pop_tracer", "swap_reporter", "destroy_husks", "scoped", "scoped_dw"};
   return (k >= 0 && k < NOPKIND) ? n[k] : "?";
 }
 // argument layout of O_CREATE
@@ -152,7 +152,7 @@ class Model {
  public:
   std::map<int, MExp> E;
   int slot_eid[NALL];
-  int mon_eid[NDW][NMON];
+  int mon_eid[NDW][NMONX];
   MObj obj[NOBJ];
   MSeq seq[NSEQ];
   MDw dw[NDW];
@@ -221,6 +221,12 @@ class Model {
       case O_SWAP_REPORTER: return true;
       case O_DESTROY_HUSKS: return husks > 0;
       case O_SCOPED: return obj[o.at(0)].alive && o.at(1) != o.at(2);  // composite: executed by the interpreter as sub-operations
+      case O_SCOPED_DW: {  // composite: { REQUIRE_DESTRUCTION(obj)[.IN_SEQUENCE(s)]; [delete obj;] }
+        if (!dw[o.at(0)].alive) return false;
+        if (o.at(1) > 0 && !seq[o.at(2)].alive) return false;
+        if (o.at(1) > 0) for (int eid : dw[o.at(0)].reqs) if (!E.at(eid).seqs.empty()) return false;
+        return true;
+      }
     }
     return false;
   }
